@@ -6,6 +6,7 @@ pub mod eng_codec;
 pub mod eng_flood;
 pub mod eng_hpack;
 pub mod eng_pair;
+pub mod eng_queue;
 pub mod eng_raw;
 pub mod eng_raw2;
 pub mod eng_soup;
